@@ -75,10 +75,56 @@ def mutable_ids(x, acc=None, depth=0):
     return acc
 
 
+def bad_key_owner(T, w, defs, depth=0):
+    """Kind of type ('cls' / 'map' / '?') owning the first dict in wire term w that has a non-primitive-exact key."""
+    prim = {"none": "NoneType", "bool": "bool", "int": "int", "float": "float", "str": "str"}
+    while T.get("k") in ("newtype", "alias", "salias", "final", "classvar"):
+        T = T["a"]
+    if depth > 20 or not isinstance(w, dict):
+        return ""
+    if T.get("k") == "union":
+        for m in T["xs"]:
+            r = bad_key_owner(m, w, defs, depth + 1)
+            if r:
+                return r
+        return ""
+    if w.get("k") == "dict" and T.get("k") not in ("map", "cls", "any"):
+        return ""
+    if w.get("k") == "dict":
+        if any(prim.get(kv[0].get("k")) != kv[0].get("cls") for kv in w["kv"]):
+            return T.get("k", "?")
+        for kv in w["kv"]:
+            if T.get("k") == "map":
+                sub = T["va"]
+            elif T.get("k") == "cls":
+                sub = next((f[1] for f in defs[T["c"]]["fields"] if f[0] == kv[0].get("s")), {"k": "any"})
+            else:
+                sub = {"k": "any"}
+            r = bad_key_owner(sub, kv[1], defs, depth + 1)
+            if r:
+                return r
+    elif w.get("k") == "list":
+        for i, x in enumerate(w["xs"]):
+            if T.get("k") == "coll":
+                sub = T["a"]
+            elif T.get("k") == "tup" and i < len(T["xs"]):
+                sub = T["xs"][i]
+            else:
+                sub = {"k": "any"}
+            r = bad_key_owner(sub, x, defs, depth + 1)
+            if r:
+                return r
+    return ""
+
+
+DEFS: list = [None]
+
+
 def collect(ctx: Ctx, profile: str):
     import typelib
     rng = random.Random(ctx.seed)
     defs, types, model = vs.universe(profile)
+    DEFS[0] = defs
     env = vs.make_env(defs)
     warnings.simplefilter("ignore")
     clear_typelib_caches()
@@ -133,7 +179,8 @@ def _violations(rejects, events, meta):
         out.append(Violation(
             clause=r["clause"], case={"T": e["T"], "value_kind": m[0], "value_repr": m[1]},
             fields={"root_shape": shape(e["T"]), "value_kind": m[0], "raised": e["w"].get("e", ""),
-                    "leaf_clause": ".".join(r["clause"].split(".")[-2:])},
+                    "leaf_clause": ".".join(r["clause"].split(".")[-2:]),
+                    "bad_key_owner": bad_key_owner(e["T"], e["w"].get("r", {}), DEFS[0]) if "dict.key" in r["clause"] else ""},
             msg=f"T={json.dumps(e['T'])[:140]} v={m[1]} ({m[0]}) -> {json.dumps(e['w'])[:200]}"))
     return out
 
